@@ -20,9 +20,10 @@ RoundTrip(e, fmt) ==
       expr(d) == IF fmt = "xml" THEN XmlExpressible(d) ELSE PbExpressible(d)
   IN IF ~expr(e.desc) \/ ~ReuseOK(e.desc, e.reuse) \/ ~expr(dE) THEN {"driver/inexpressible-case"}
      ELSE IF e.orig # Leaves(dE) THEN {"driver/alpha-gamma"}      \* the harness built / edited / projected something else
+     ELSE IF e.exc = "write" /\ (HasCyclelessLight(e.desc) \/ HasCyclelessLight(dE)) THEN {}   \* band, see Codec!HasCyclelessLight
      ELSE IF e.exc = "write" THEN {pre \o "Total/write"}
      ELSE IF e.exc = "read" THEN {pre \o "Total/read"}
-     ELSE Diffs(fmt, Expected(fmt, dW), e.back)                   \* every differing leaf, one clause each
+     ELSE Diffs(fmt, OutsideBand(dW, Expected(fmt, dW)), OutsideBand(dW, e.back))   \* every differing leaf, one clause each
 
 Single(c) == IF c = "" THEN {} ELSE {c}
 Clauses(e) ==        \* the set of clauses an event fails ({} = accepted)
